@@ -47,6 +47,7 @@ type Solver struct {
 	Errors     int
 	LastError  string
 	Crashed    int
+	Recovered  int // `(error` responses answered by discarding the process
 	mu         sync.Mutex
 	busy       bool
 	cancelled  bool // set by Kill: a check that has not started yet returns Unknown at once
@@ -133,7 +134,7 @@ func (s *Solver) Restart() error {
 	if err != nil {
 		return err
 	}
-	n.Queries, n.Time, n.Errors, n.Hung, n.Crashed, n.log = s.Queries, s.Time, s.Errors, s.Hung, s.Crashed, s.log
+	n.Queries, n.Time, n.Errors, n.Hung, n.Crashed, n.Recovered, n.LastError, n.log = s.Queries, s.Time, s.Errors, s.Hung, s.Crashed, s.Recovered, s.LastError, s.log
 	*s = *n
 	return nil
 }
@@ -616,6 +617,14 @@ func (s *Solver) Check() Verdict {
 	s.Queries++
 	s.Time += time.Since(start)
 	if s.Errors > errBefore {
+		// an `(error` line: this query is unknown, and the process is discarded so that an assertion the solver may
+		// have dropped cannot influence later queries - the next use starts a fresh process and re-asserts the whole stack
+		s.Recovered += s.Errors - errBefore
+		s.Errors = errBefore
+		if !s.dead {
+			s.dead = true
+			s.cmd.Process.Kill()
+		}
 		return Unknown
 	}
 	switch resp {
